@@ -1298,3 +1298,390 @@ func instrPos(i ssa.Instruction) token.Pos {
 	}
 	return token.NoPos
 }
+
+// ruleNestedKeysRecorded: C19.j. A NOT or OR search key the parser has read
+// is recorded in criteria.Not / criteria.Or whatever it contains: the store
+// is control dependent only on the key dispatch (string comparisons of the key
+// atom) and on parse failures. A "simplification" that folds some parsed keys
+// away under a predicate on their content loses whatever the predicate forgot
+// to look at.
+func ruleNestedKeysRecorded(c *Ctx, rule string) {
+	p := c.P
+	crit := p.Named("", "SearchCriteria")
+	if crit == nil {
+		c.unresolvedRoot("imap.SearchCriteria")
+		return
+	}
+	n := 0
+	for _, fn := range p.SrcFuncs("imapserver") {
+		pd := postDominators(fn)
+		allInstrs(fn, func(i ssa.Instruction) {
+			st, ok := i.(*ssa.Store)
+			if !ok {
+				return
+			}
+			r, ok := fieldOf(st.Addr)
+			if !ok || r.Owner != crit || (r.Field.Name() != "Not" && r.Field.Name() != "Or") {
+				return
+			}
+			if isFreshLocal(r.Base) {
+				return
+			}
+			n++
+			var foreign []string
+			for x := range transitiveDeps(fn, pd, st.Block()) {
+				ifi, isIf := x.Instrs[len(x.Instrs)-1].(*ssa.If)
+				if !isIf {
+					continue
+				}
+				for _, a := range atomsOf(ifi.Cond, true) {
+					switch {
+					case a.Const != nil && a.Const.Value != nil && a.Const.Value.Kind().String() == "String":
+						// key dispatch
+					case a.Nil != 0 && isErrorType(a.V.Type()):
+						// parse failure
+					default:
+						if cl, _ := callOf(a.V); cl != nil {
+							if isDecoderMethodCall(cl) {
+								continue
+							}
+							if o := calleeObj(cl); o != nil && o.Pkg() != nil && o.Pkg().Path() == "strings" {
+								continue
+							}
+							foreign = append(foreign, callKey(cl))
+							continue
+						}
+						if _, isPhi := a.V.(*ssa.Phi); isPhi {
+							continue
+						}
+						if _, isParam := a.V.(*ssa.Parameter); isParam {
+							continue
+						}
+						if bo, ok := a.V.(*ssa.BinOp); ok {
+							_ = bo
+							continue
+						}
+						foreign = append(foreign, a.V.String())
+					}
+				}
+			}
+			key := fmt.Sprintf("%s: criteria.%s recorded#%d", fnKey(fn), r.Field.Name(), countKey(c, rule, fmt.Sprintf("%s: criteria.%s recorded#", fnKey(fn), r.Field.Name()))+1)
+			c.check(len(foreign) == 0, rule, key, instrPos(st), "recorded whenever the key was parsed",
+				"the parsed "+strings.ToUpper(r.Field.Name())+" key is recorded only under a condition on its content ("+strings.Join(uniq(foreign), ", ")+"): keys for which the condition fails are folded away, and whatever the condition does not look at (dates, sizes) is lost from the conjunction")
+		})
+	}
+	if n == 0 {
+		c.unresolvedRoot("stores into criteria.Not / criteria.Or in the SEARCH parser")
+	}
+}
+
+// ruleWireBytesQuotedInErrors: C04.k. Bytes peeked or read raw from the
+// connection enter error messages only through the %q verb (or as numbers):
+// the server copies decoder messages into its BAD response text, and a raw CR
+// or LF there splits the response line.
+func ruleWireBytesQuotedInErrors(c *Ctx, rule string) {
+	p := c.P
+	n := 0
+	fromReader := func(v ssa.Value) bool {
+		seen := map[ssa.Value]bool{}
+		var rec func(v ssa.Value, d int) bool
+		rec = func(v ssa.Value, d int) bool {
+			if v == nil || seen[v] || d > 8 {
+				return false
+			}
+			seen[v] = true
+			switch x := v.(type) {
+			case *ssa.Call:
+				if o := calleeObj(x); o != nil {
+					if rn := recvNamed(o); rn != nil && rn.Obj().Pkg() != nil && rn.Obj().Pkg().Path() == "bufio" && (o.Name() == "Peek" || o.Name() == "ReadByte" || o.Name() == "ReadLine" || o.Name() == "ReadString" || o.Name() == "ReadBytes" || o.Name() == "ReadSlice") {
+						return true
+					}
+				}
+				return false
+			case *ssa.Extract:
+				return rec(x.Tuple, d+1)
+			case *ssa.MakeInterface:
+				return rec(x.X, d+1)
+			case *ssa.ChangeType:
+				return rec(x.X, d+1)
+			case *ssa.Convert:
+				return rec(x.X, d+1)
+			case *ssa.UnOp:
+				return rec(x.X, d+1)
+			case *ssa.IndexAddr:
+				return rec(x.X, d+1)
+			case *ssa.Index:
+				return rec(x.X, d+1)
+			case *ssa.Slice:
+				return rec(x.X, d+1)
+			case *ssa.Phi:
+				for _, e := range x.Edges {
+					if rec(e, d+1) {
+						return true
+					}
+				}
+			}
+			return false
+		}
+		return rec(v, 0)
+	}
+	for _, fn := range p.SrcFuncs("internal/imapwire", "imapserver") {
+		allInstrs(fn, func(i ssa.Instruction) {
+			call, ok := i.(*ssa.Call)
+			if !ok {
+				return
+			}
+			o := calleeObj(call)
+			if o == nil || o.Pkg() == nil || o.Pkg().Path() != "fmt" || (o.Name() != "Sprintf" && o.Name() != "Errorf") || len(call.Call.Args) < 2 {
+				return
+			}
+			format, ok := constString(call.Call.Args[0])
+			if !ok {
+				return
+			}
+			// the variadic arguments: elements of the slice literal, in order
+			sl, ok := call.Call.Args[1].(*ssa.Slice)
+			if !ok {
+				return
+			}
+			arr, ok := sl.X.(*ssa.Alloc)
+			if !ok {
+				return
+			}
+			args := map[int64]ssa.Value{}
+			for _, ref := range *arr.Referrers() {
+				if ia, ok := ref.(*ssa.IndexAddr); ok {
+					if k, ok := constInt(ia.Index); ok {
+						for _, r2 := range *ia.Referrers() {
+							if st, ok := r2.(*ssa.Store); ok && st.Addr == ssa.Value(ia) {
+								args[k] = st.Val
+							}
+						}
+					}
+				}
+			}
+			// the verbs, in order
+			var verbs []byte
+			for k := 0; k < len(format); k++ {
+				if format[k] != '%' {
+					continue
+				}
+				k++
+				for k < len(format) && strings.IndexByte("+-# 0123456789.", format[k]) >= 0 {
+					k++
+				}
+				if k < len(format) && format[k] != '%' {
+					verbs = append(verbs, format[k])
+				}
+			}
+			for idx, verb := range verbs {
+				a, ok := args[int64(idx)]
+				if !ok || !fromReader(a) {
+					continue
+				}
+				n++
+				safe := verb == 'q' || verb == 'd' || verb == 'x' || verb == 'X' || verb == 'U'
+				if verb == 'v' {
+					// %v of a []byte prints numbers; of a byte too
+					safe = true
+					if b, ok := a.Type().Underlying().(*types.Basic); ok && b.Info()&types.IsString != 0 {
+						safe = false
+					}
+					if mi, ok := a.(*ssa.MakeInterface); ok {
+						if b, ok := mi.X.Type().Underlying().(*types.Basic); ok && b.Info()&types.IsString != 0 {
+							safe = false
+						}
+					}
+				}
+				c.check(safe, rule, fmt.Sprintf("%s: %%%c of wire bytes#%d", fnKey(fn), verb, countKey(c, rule, fnKey(fn)+": %")+1), call.Pos(),
+					"raw connection bytes are formatted quoted or numerically",
+					fmt.Sprintf("bytes peeked from the connection are formatted with %%%c into an error message: the server copies that message into its tagged BAD text, so a CR or LF sent by the client ends up raw inside a response line (the response is no longer a whole well-formed line)", verb))
+			}
+		})
+	}
+	if n == 0 {
+		c.unresolvedRoot("error messages that embed bytes peeked from the connection")
+	}
+}
+
+// ruleListMailboxDecoded: C16.i. Every list-mailbox pattern the server hands
+// on has passed the modified UTF-7 decoder, whichever syntactic form (quoted,
+// literal, bare list-chars) it arrived in: each success return of a server
+// parser that applies the decoder at all returns the decoder's output.
+func ruleListMailboxDecoded(c *Ctx, rule string) {
+	p := c.P
+	n := 0
+	isDecodeCall := func(v ssa.Value) bool {
+		if ex, ok := v.(*ssa.Extract); ok && ex.Index == 0 {
+			if call, ok := ex.Tuple.(*ssa.Call); ok {
+				if o := calleeObj(call); o != nil && o.Name() == "String" && o.Pkg() != nil && strings.HasSuffix(o.Pkg().Path(), "x/text/encoding") {
+					return true
+				}
+			}
+		}
+		return false
+	}
+	for _, fn := range p.SrcFuncs("imapserver") {
+		res := fn.Signature.Results()
+		if res.Len() != 2 || !isErrorType(res.At(1).Type()) {
+			continue
+		}
+		if b, ok := res.At(0).Type().Underlying().(*types.Basic); !ok || b.Info()&types.IsString == 0 {
+			continue
+		}
+		uses := false
+		allInstrs(fn, func(i ssa.Instruction) {
+			if v, ok := i.(ssa.Value); ok && isDecodeCall(v) {
+				uses = true
+			}
+		})
+		if !uses {
+			continue
+		}
+		for k, r := range returnsOf(fn) {
+			if !isNilConst(unspill(r.Results[1])) {
+				// `return utf7…String(x)` returns the call's own error
+				if ex, ok := unspill(r.Results[1]).(*ssa.Extract); !ok || !isDecodeCall(unspill(r.Results[0])) || ex.Tuple != unspill(r.Results[0]).(*ssa.Extract).Tuple {
+					continue
+				}
+			}
+			n++
+			c.check(isDecodeCall(unspill(r.Results[0])), rule, fmt.Sprintf("%s: success return#%d", fnKey(fn), k+1), r.Pos(),
+				"returns the modified UTF-7 decoder's output",
+				"this success return hands back the raw string without the modified UTF-7 decoding the other forms get: a quoted or literal pattern with '&' escapes no longer matches the mailbox it names, and malformed names are accepted")
+		}
+	}
+	if n == 0 {
+		c.unresolvedRoot("server parsers that apply the modified UTF-7 decoder and return a string")
+	}
+}
+
+// ruleCallbackGetsMailboxView: C08.n. The per-message callback of the
+// backend's iteration helpers (forEachLocked's f(seqNum, msg)) is handed the
+// mailbox-view sequence number (position in the message list); the callers
+// translate it themselves where they talk to a client. A number that went
+// through SessionTracker.EncodeSeqNum (the issuing session's private view)
+// must not reach the callback: Store would broadcast one session's numbering
+// to the others and Fetch would translate twice.
+func ruleCallbackGetsMailboxView(c *Ctx, rule string) {
+	p := c.P
+	n := 0
+	for _, fn := range p.SrcFuncs("imapserver/imapmemserver") {
+		allInstrs(fn, func(i ssa.Instruction) {
+			call, ok := i.(*ssa.Call)
+			if !ok || call.Call.IsInvoke() || call.Call.StaticCallee() != nil {
+				return
+			}
+			prm, ok := call.Call.Value.(*ssa.Parameter)
+			if !ok {
+				if pp := paramOf(call.Call.Value); pp != nil {
+					prm = pp
+				} else {
+					return
+				}
+			}
+			_ = prm
+			for k, a := range call.Call.Args {
+				b, ok := a.Type().Underlying().(*types.Basic)
+				if !ok || b.Kind() != types.Uint32 {
+					continue
+				}
+				n++
+				encoded := false
+				seen := map[ssa.Value]bool{}
+				var rec func(v ssa.Value, d int)
+				rec = func(v ssa.Value, d int) {
+					if v == nil || seen[v] || d > 8 {
+						return
+					}
+					seen[v] = true
+					switch x := v.(type) {
+					case *ssa.Call:
+						if strings.HasSuffix(callKey(x), ".EncodeSeqNum") {
+							encoded = true
+						}
+					case *ssa.Phi:
+						for _, e := range x.Edges {
+							rec(e, d+1)
+						}
+					case *ssa.Convert:
+						rec(x.X, d+1)
+					case *ssa.BinOp:
+						rec(x.X, d+1)
+						rec(x.Y, d+1)
+					case *ssa.UnOp:
+						if al, ok := x.X.(*ssa.Alloc); ok {
+							for _, ref := range *al.Referrers() {
+								if st, ok := ref.(*ssa.Store); ok && st.Addr == ssa.Value(al) {
+									rec(st.Val, d+1)
+								}
+							}
+						}
+					}
+				}
+				rec(a, 0)
+				c.check(!encoded, rule, fmt.Sprintf("%s: callback argument %d", fnKey(fn), k), call.Pos(),
+					"the callback receives the position in the message list",
+					"the number handed to the per-message callback has passed through EncodeSeqNum on some path: the callers treat it as the mailbox-view number (they queue tracker updates with it and translate it again), so other sessions are told this session's private numbering")
+			}
+		})
+	}
+	if n == 0 {
+		c.unresolvedRoot("per-message callbacks taking a sequence number in the in-memory backend")
+	}
+}
+
+// ruleModeFlagsAfterEncoderLock: C18.k. The wire-syntax flags of a command's
+// encoder (UTF-8 quoting, LITERAL-/LITERAL+) are taken from the capability
+// set after the encoder lock has been acquired: a command queued behind one
+// that changes the capabilities (AUTHENTICATE, ENABLE …) must be encoded with
+// what holds when its turn comes, not with what held when it was queued.
+func ruleModeFlagsAfterEncoderLock(c *Ctx, rule string) {
+	p := c.P
+	begin := p.Func("imapclient", "Client", "beginCommand")
+	if begin == nil {
+		c.unresolvedRoot("(*Client).beginCommand")
+		return
+	}
+	flow := mustFlow(begin, facts{}, func(f facts, i ssa.Instruction) facts {
+		if call, ok := i.(ssa.CallInstruction); ok {
+			if op, fa := isMutexOp(call); op == "lock" {
+				if r, ok := fieldOf(fa); ok && r.is("Client", "encMutex") {
+					return f.with("enc-locked")
+				}
+			}
+		}
+		return f
+	}, nil)
+	n := 0
+	for _, g := range helperClosure(begin, 1) {
+		gflow := flow
+		if g != begin {
+			continue // helpers are entered from beginCommand: checked at their call sites below
+		}
+		allInstrs(g, func(i ssa.Instruction) {
+			call, ok := i.(*ssa.Call)
+			if !ok {
+				return
+			}
+			if o := calleeObj(call); o == nil || o.Name() != "Has" || len(call.Call.Args) == 0 {
+				return
+			}
+			r, ok := loadedField(call.Call.Args[0])
+			if !ok || r.Owner == nil || r.Owner.Obj().Name() != "Client" {
+				return
+			}
+			f, reach := gflow.at(call)
+			if !reach {
+				return
+			}
+			n++
+			c.check(f.has("enc-locked"), rule, fmt.Sprintf("beginCommand: %s.Has#%d", r.String(), n), call.Pos(),
+				"read after the encoder lock was taken",
+				r.String()+" is consulted for the command's wire syntax before the encoder lock is acquired: while this command waits behind another one (AUTHENTICATE, ENABLE, STARTTLS) the capabilities may change, and it is then written with literal/quoting forms the server no longer (or does not yet) accept")
+		})
+	}
+	if n == 0 {
+		c.unresolvedRoot("capability queries in beginCommand")
+	}
+}
